@@ -82,6 +82,7 @@ func genC09(r *Rng, tier string, idx int) *Plan {
 			p.Ops = append(p.Ops, Op{ID: nid(), Kind: "send", Path: target, S: "held"})
 		}
 	}
+	sprayReplicas(r, p, 0.5)
 	return p
 }
 
@@ -153,6 +154,7 @@ func runC09(p *Plan) *Result {
 }
 
 func c09Exec(a *Agents, op *Op) {
+	a.route(op)
 	switch op.Kind {
 	case "logout":
 		f := a.w.Filters[op.F]
